@@ -156,3 +156,11 @@ package storage
 
 //@ func (*StorageCar).Index
 //@   ensures def [C07]: ref(result) == ref(sc.idx)
+
+//@ func NewReadableWritable
+//@   requires nonnil: rw != nil
+//@   requires plain_file: !typeis(rw, "*v2/internal/io.offsetReadSeeker")
+//@   let sc, nerr := call[newReadableWritable#0]
+//@   let ierr := call[StorageCar.init#0]
+//@   call[newReadableWritable#0] assert same_configuration [C12]: ref(arg0) == ref(rw) && arg1 == roots && arg2 == opts
+//@   ensures initialised_store [C01,C12]: err == nil ==> result0 == sc && nerr == nil
